@@ -21,7 +21,7 @@ TRUSTED = ["the TWAP geometric mean is an oracle value captured from the real ca
            "absorbed by a 1e-12 relative allowance)"]
 ASSUMPTIONS = ["frozen market: every row of the TWAP window equals the current row, the oSQTH/WETH pool's price equals the squeeth row's OSQTH price, "
                "account prices are the ones derived from the same row (WETH, OSQTH*WETH)",
-               "pool orientation token0 = WETH = quote; Broker.allow_negative_balance = False; account quote token USD"]
+               "the model knows the pool orientation token0 = WETH = quote (pools with token0 = oSQTH, 1 world in 6, are oracle-only); Broker.allow_negative_balance = False; account quote token USD"]
 
 DUST = F(1, 10 ** 5)
 
@@ -184,9 +184,12 @@ def run(ctx: Ctx):
     for _ in range(ctx.scale(120, 4000)):
         sequence(ctx, runner)
     runner.finish()
+    L.special_stream(ctx, ctx.scale(120, 2500), "squeeth.", reject_intact=False)
 
 
 def replay(ctx: Ctx, case) -> bool:
+    if case.get("special"):
+        return L.special_replay(case, "squeeth.", reject_intact=False)
     world = L.World(G.parse_spec(case["spec"]), G.parse_env(case["env"]))
     nv0, prices = net_value(world)
     o = L.observe(world, G.parse_op(case["op"]), "replay")
